@@ -31,6 +31,7 @@ import (
 	"strconv"
 	"strings"
 	"sync"
+	"sync/atomic"
 	"time"
 
 	res "github.com/jirenius/go-res"
@@ -112,7 +113,10 @@ type desc struct {
 	Req      Request      `json:"req"`            // single
 	Reqs     []Request    `json:"reqs,omitempty"` // conc
 	Workers  int          `json:"workers,omitempty"`
-	Twice    bool         `json:"read_twice,omitempty"` // pair: the stopped handler also reads before stopping
+	Twice    bool         `json:"read_twice,omitempty"`      // pair: the stopped handler also reads before stopping
+	Lookups  int          `json:"lookups,omitempty"`         // conc: goroutines calling Service.With / Service.Resource all the time ...
+	LookupPs []string     `json:"lookup_patterns,omitempty"` // ... on fresh names of these patterns (other resources, same token counts)
+	Procs    int          `json:"gomaxprocs,omitempty"`      // pair: run with this GOMAXPROCS (1 = both requests share per-P caches such as sync.Pool's)
 }
 
 // ---------------------------------------------------------------- Coq printers
@@ -221,6 +225,9 @@ func pAction(a Action) string {
 		case "baderr":
 			// an error value whose Error method panics is, to the library, an error with this text
 			return "APanic (PGoErr " + B(badErrText) + ")"
+		case "rt-index", "rt-nilmap", "rt-nilderef", "rt-divide", "rt-assert":
+			// a real Go runtime error (a value implementing runtime.Error) is, to the library, an error with its text
+			return "APanic (PGoErr " + B(rtText(a.Kind)) + ")"
 		}
 		panic("panic kind " + a.Kind)
 	case "status":
@@ -748,8 +755,59 @@ func replyErrArg(a Action) error {
 	}
 }
 
+// raises a REAL Go runtime error (the panic value implements runtime.Error); operands are fixed,
+// so the message is deterministic
+var rtSink int
+
+func raiseRuntimeError(kind string) {
+	switch kind {
+	case "rt-index":
+		a := make([]int, 3)
+		i := 5 + rtSink
+		rtSink += a[i]
+	case "rt-nilmap":
+		var m map[string]int
+		m["k"] = 1
+	case "rt-nilderef":
+		var p *Request
+		rtSink += len(p.Subject)
+	case "rt-divide":
+		z := rtSink
+		rtSink = 10 / z
+	case "rt-assert":
+		var x interface{} = "s"
+		rtSink += x.(int)
+	}
+	panic("harness: no runtime error raised for " + kind)
+}
+
+var rtTexts sync.Map
+
+// the Error() text of that runtime error (Go runtime trusted), checked to be a runtime.Error
+func rtText(kind string) string {
+	if t, ok := rtTexts.Load(kind); ok {
+		return t.(string)
+	}
+	var text string
+	func() {
+		defer func() {
+			v := recover()
+			re, ok := v.(runtime.Error)
+			if !ok {
+				panic(fmt.Sprint("harness: not a runtime.Error: ", v))
+			}
+			text = re.Error()
+		}()
+		raiseRuntimeError(kind)
+	}()
+	rtTexts.Store(kind, text)
+	return text
+}
+
 func doPanic(a Action) {
 	switch a.Kind {
+	case "rt-index", "rt-nilmap", "rt-nilderef", "rt-divide", "rt-assert":
+		raiseRuntimeError(a.Kind)
 	case "err":
 		panic(goErr(a.E))
 	case "nilerr":
@@ -978,6 +1036,25 @@ func routeTerm(s *res.Service, d desc, rq Request) string {
 	pid := int(mh.Handler.Type) - typeBase
 	for _, p := range d.Patterns {
 		if p.H.Pid == pid {
+			if d.Kind != "single" {
+				// concurrent variants: params and group are derived from the request's own subject with
+				// Pattern.Values (C17), independently of the Mux; the quiescent Mux must agree
+				if vals, ok := res.Pattern(fullName(d.Service, p.Pattern)).Values(rq.Parts[1]); ok {
+					group := rq.Parts[1]
+					if p.Group != "" {
+						group = p.Group
+						for k, v := range vals {
+							group = strings.Replace(group, "${"+k+"}", v, -1)
+						}
+					}
+					if AMap(vals) != AMap(mh.Params) || group != mh.Group {
+						concViolMu.Lock()
+						concViol = append(concViol, fmt.Sprintf("quiescent Mux.GetHandler(%q) gives params %v group %q, the subject gives %v %q", rq.Parts[1], mh.Params, mh.Group, vals, group))
+						concViolMu.Unlock()
+					}
+					return "(Some (HM " + pHandlers(p.H) + " " + AMap(vals) + " " + B(group) + "))"
+				}
+			}
 			return "(Some (HM " + pHandlers(p.H) + " " + AMap(mh.Params) + " " + B(mh.Group) + "))"
 		}
 	}
@@ -1031,10 +1108,11 @@ func decodeError(payload string) string {
 // ---------------------------------------------------------------- running a case on the real service
 
 type result struct {
-	Idx   int      `json:"idx"`
-	Terms []string `json:"terms"` // one per request (1 for single, n for conc, 2 for pair)
-	Viol  []string `json:"viol,omitempty"`
-	Err   string   `json:"err,omitempty"`
+	Idx     int      `json:"idx"`
+	Terms   []string `json:"terms"` // one per request (1 for single, n for conc, 2 for pair)
+	Viol    []string `json:"viol,omitempty"`
+	Lookups int64    `json:"lookups,omitempty"`
+	Err     string   `json:"err,omitempty"`
 }
 
 type doneHub struct {
@@ -1155,6 +1233,22 @@ func runSingle(d desc) string {
 	return fmt.Sprintf("RC %s %s %s false %s %s %s %s", route, partsTerm(rq), msgTerm(rq), pPubs(ps, rq.Reply), List(logTerms), Bool(done), Bool(probeOK))
 }
 
+var lookupsMade int64
+var totalLookups int64
+var concViol []string
+var concViolMu sync.Mutex
+
+// a fresh name of one of the lookup patterns: every placeholder gets a token never used by a request
+func lookupName(d desc, g, n int) string {
+	pt := strings.Split(d.LookupPs[(g+n)%len(d.LookupPs)], ".")
+	for i, t := range pt {
+		if strings.HasPrefix(t, "$") {
+			pt[i] = fmt.Sprintf("z%dn%dt%d", g, n, i)
+		}
+	}
+	return fullName(d.Service, strings.Join(pt, "."))
+}
+
 func runConc(d desc) []string {
 	rec := &recorder{keyed: true, yield: 3}
 	s, conn, served := startService(d, rec)
@@ -1169,6 +1263,40 @@ func runConc(d desc) []string {
 		subjCh[sj] = hub.expect(sj)
 	}
 	_ = chans
+	// lookups racing with the routing of the requests: With / Resource are meant to be called from any goroutine
+	stop := make(chan struct{})
+	var lwg, started sync.WaitGroup
+	var nLook int64
+	if len(d.LookupPs) > 0 {
+		for g := 0; g < d.Lookups; g++ {
+			lwg.Add(1)
+			started.Add(1)
+			go func(g int) {
+				defer lwg.Done()
+				first := true
+				for n := 0; ; n++ {
+					select {
+					case <-stop:
+						return
+					default:
+					}
+					name := lookupName(d, g, n)
+					if n%4 == 0 {
+						s.With(name, func(res.Resource) {})
+						runtime.Gosched()
+					} else {
+						s.Resource(name)
+					}
+					atomic.AddInt64(&nLook, 1)
+					if first {
+						first = false
+						started.Done()
+					}
+				}
+			}(g)
+		}
+		started.Wait()
+	}
 	// several feeders, as messages of different subscriptions arrive interleaved
 	var wg sync.WaitGroup
 	feeders := 4
@@ -1194,6 +1322,9 @@ func runConc(d desc) []string {
 		}
 		doneBy[sj] = ok
 	}
+	close(stop)
+	lwg.Wait()
+	lookupsMade = atomic.LoadInt64(&nLook)
 	probeOK := probe(s, conn, d, "c")
 	all := conn.snapshot()
 	terms := make([]string, len(d.Reqs))
@@ -1219,6 +1350,9 @@ func runConc(d desc) []string {
 // request B (reqs[1], another resource, hence another worker group) has been processed completely
 func runPair(d desc) ([]string, []string) {
 	a, b := d.Reqs[0], d.Reqs[1]
+	if d.Procs > 0 {
+		defer runtime.GOMAXPROCS(runtime.GOMAXPROCS(d.Procs))
+	}
 	rec := &recorder{keyed: true, gateName: a.Parts[1], entered: make(chan struct{}), release: make(chan struct{}), twice: d.Twice}
 	s, conn, served := startService(d, rec)
 	ca, cb := hub.expect(a.Subject), hub.expect(b.Subject)
@@ -1292,6 +1426,8 @@ func childMain(file string, from int) {
 		r := result{Idx: i}
 		if ds[i].Kind == "conc" {
 			r.Terms = runConc(ds[i])
+			r.Viol, concViol = concViol, nil
+			r.Lookups = lookupsMade
 		} else if ds[i].Kind == "pair" {
 			r.Terms, r.Viol = runPair(ds[i])
 		} else {
@@ -1335,6 +1471,7 @@ func runAll(prop string, out string, ds []desc) (terms [][]string, crashed []boo
 				if json.Unmarshal(line, &r) == nil && r.Idx == next {
 					terms[next] = r.Terms
 					viols[next] = r.Viol
+					totalLookups += r.Lookups
 					next++
 				}
 			}
@@ -1436,7 +1573,8 @@ func genReply(r *Rng, kinds []string) Action {
 }
 
 func genPanic(r *Rng) Action {
-	a := Action{Op: "panic", Kind: r.Pick([]string{"err", "err", "nilerr", "nilerr", "goerr", "goerr", "str", "str", "other", "other", "baderr"})}
+	a := Action{Op: "panic", Kind: r.Pick([]string{"err", "err", "err", "nilerr", "nilerr", "goerr", "goerr", "str", "str", "other", "other", "baderr",
+		"rt-index", "rt-index", "rt-nilmap", "rt-nilmap", "rt-nilderef", "rt-divide", "rt-assert"})}
 	switch a.Kind {
 	case "err":
 		a.E = genRErr(r)
@@ -1504,6 +1642,11 @@ func genScript(r *Rng, kinds []string) []Action {
 			{Op: "event", S: "after", V: genVal(r, false)}}
 	case k == 12:
 		return []Action{{Op: "value", B: false}, {Op: "value", B: true}, genReply(r, kinds), {Op: "timeout", N: 10}}
+	case k == 13:
+		// reply, then a real runtime error
+		return []Action{genReply(r, kinds), {Op: "panic", Kind: r.Pick([]string{"rt-index", "rt-nilmap", "rt-nilderef", "rt-divide", "rt-assert"})}}
+	case k == 14:
+		return []Action{{Op: "value", B: r.Bool()}, genReply(r, kinds), {Op: "panic", Kind: r.Pick([]string{"rt-index", "rt-nilmap"})}}
 	}
 	n := r.Intn(7)
 	sc := make([]Action, n)
@@ -1517,6 +1660,17 @@ func pickInt(r *Rng, xs []int) int { return xs[r.Intn(len(xs))] }
 
 var tokPool = []string{"call", "get", "auth", "access", "set", "new", "model", "a", "42", "x-y", "ping", "event", "conn"}
 var methodPool = []string{"set", "get", "new", "call", "auth", "add", "login", "x"}
+
+func scanRT(scripts ...[]Action) bool {
+	for _, sc := range scripts {
+		for _, a := range sc {
+			if a.Op == "panic" && strings.HasPrefix(a.Kind, "rt-") {
+				return true
+			}
+		}
+	}
+	return false
+}
 
 func scan(scripts ...[]Action) (nilErr, badErr bool) {
 	for _, sc := range scripts {
@@ -1912,17 +2066,66 @@ func loadRequest(r *Rng, reply, rname string, id int, methods []string, pk int) 
 // the resources sharing a group), with payload values unique to the request
 func genConc(r *Rng, prop string, round, nreq, nres, workers int) desc {
 	d := desc{Kind: "conc", Service: "load", Workers: workers}
+	d.Lookups = 3
+	d.LookupPs = []string{"lk0.$x", "lk1.$a.$b.$c.$d.$e"}
 	for i := 0; i < nres; i++ {
 		p := PatternDef{Pattern: fmt.Sprintf("res%d.$id", i), H: loadHandlers(r, i, i%3 == 0)}
+		if i%2 == 1 {
+			p.Pattern += ".$p2.$p3.$p4.$p5"
+		}
 		if i%5 == 0 {
 			p.Group = "shared"
+		} else if i%7 == 3 {
+			p.Group = "g.${p3}.${id}"
 		}
 		d.Patterns = append(d.Patterns, p)
+	}
+	for j := range d.LookupPs {
+		d.Patterns = append(d.Patterns, PatternDef{Pattern: d.LookupPs[j], H: Handlers{Pid: nres + j, Get: &[]Action{{Op: "reply", Kind: "model", V: &Val{K: "null"}}}}})
 	}
 	for k := 0; k < nreq; k++ {
 		i := r.Intn(nres)
 		rname := fmt.Sprintf("load.res%d.k%d", i, k)
+		if i%2 == 1 {
+			rname += fmt.Sprintf(".a%d.b%d.c%d.d%d", k, k*3, k*7, k*11)
+		}
 		d.Reqs = append(d.Reqs, loadRequest(r, fmt.Sprintf("_INBOX.%s.c%d.%d", prop, k, round), rname, round*1000+k, []string{"set", "login", "new", "zzz", "get"}, r.Intn(10)))
+	}
+	return d
+}
+
+// requests on patterns with 12 path params, routed on the listener goroutine while other goroutines
+// look up other names of the same token count through Service.With / Service.Resource
+func genRouteRace(r *Rng, prop string, round, nreq int) desc {
+	d := desc{Kind: "conc", Service: "rt", Lookups: 4}
+	tags := func(prefix string) string {
+		ts := make([]string, 12)
+		for i := range ts {
+			ts[i] = fmt.Sprintf("$%s%d", prefix, i+1)
+		}
+		return strings.Join(ts, ".")
+	}
+	for i := 0; i < 4; i++ {
+		p := PatternDef{Pattern: fmt.Sprintf("w%d.", i) + tags("p"), H: loadHandlers(r, i, i == 0)}
+		switch i {
+		case 1:
+			p.Group = "g.${p5}"
+		case 2:
+			p.Group = "${p12}.${p1}"
+		}
+		d.Patterns = append(d.Patterns, p)
+	}
+	d.LookupPs = []string{"o0." + tags("q"), "o1." + tags("q")}
+	for j := range d.LookupPs {
+		d.Patterns = append(d.Patterns, PatternDef{Pattern: d.LookupPs[j], H: Handlers{Pid: 4 + j, Get: &[]Action{{Op: "reply", Kind: "model", V: &Val{K: "null"}}}}})
+	}
+	for k := 0; k < nreq; k++ {
+		ts := make([]string, 12)
+		for i := range ts {
+			ts[i] = fmt.Sprintf("k%dv%d", k, i+1)
+		}
+		rname := fmt.Sprintf("rt.w%d.", r.Intn(4)) + strings.Join(ts, ".")
+		d.Reqs = append(d.Reqs, loadRequest(r, fmt.Sprintf("_INBOX.%s.w%d.%d", prop, k, round), rname, 5000+round*1000+k, []string{"set", "login", "set", "login", "zzz"}, r.Intn(9)))
 	}
 	return d
 }
@@ -1930,6 +2133,9 @@ func genConc(r *Rng, prop string, round, nreq, nres, workers int) desc {
 // request A is stopped in its handler until request B, on another resource, is done
 func genPair(r *Rng, prop string, seq int) desc {
 	d := desc{Kind: "pair", Service: "ovl", Twice: seq%3 == 2}
+	if seq%4 < 2 {
+		d.Procs = 1
+	}
 	d.Patterns = []PatternDef{{Pattern: "pa.$id", H: loadHandlers(r, 0, false)}, {Pattern: "pb.$id", H: loadHandlers(r, 1, seq%2 == 0)}}
 	ida := 1 + r.Intn(400)
 	idb := 1 + r.Intn(400)
@@ -2071,6 +2277,10 @@ func main() {
 		for k := 0; k < rounds; k++ {
 			add(genConc(r, *prop, k, 200, 20, *workers))
 		}
+		// (d') routing of requests with many path params while With / Resource lookups run on other goroutines
+		for k := 0; k < rounds; k++ {
+			add(genRouteRace(r, *prop, k, 150))
+		}
 		// (e) deterministic overlap of two requests on different worker groups
 		pairs := 60
 		if o.Tier == "thorough" {
@@ -2090,7 +2300,11 @@ func main() {
 			impl = append(impl, ImplViolation{What: "the service process died while handling the request (a panic escaped): " + errTail, Desc: d, Tags: []string{"crash"}})
 		}
 		for _, v := range viols[i] {
-			impl = append(impl, ImplViolation{What: v, Desc: d, Tags: []string{"overlap-pair"}})
+			tag := "overlap-pair"
+			if d.Kind == "conc" {
+				tag = "routing"
+			}
+			impl = append(impl, ImplViolation{What: v, Desc: d, Tags: []string{tag}})
 		}
 		if d.Kind == "pair" {
 			for j, t := range terms[i] {
@@ -2107,7 +2321,7 @@ func main() {
 		if d.Kind == "conc" {
 			for j, t := range terms[i] {
 				// replayable: a small concurrent round of this request and the 7 fed after it
-				one := desc{Kind: "conc", Service: d.Service, Workers: d.Workers}
+				one := desc{Kind: "conc", Service: d.Service, Workers: d.Workers, Lookups: d.Lookups, LookupPs: d.LookupPs}
 				need := map[string]bool{}
 				for k := 0; k < 8 && k < len(d.Reqs); k++ {
 					rq := d.Reqs[(j+k)%len(d.Reqs)]
@@ -2115,11 +2329,16 @@ func main() {
 					need[strings.Split(rq.Parts[1], ".")[1]] = true
 				}
 				for _, p := range d.Patterns {
-					if need[strings.TrimSuffix(p.Pattern, ".$id")] {
+					first := strings.Split(p.Pattern, ".")[0]
+					if need[first] || strings.HasPrefix(first, "lk") || strings.HasPrefix(first, "o") {
 						one.Patterns = append(one.Patterns, p)
 					}
 				}
 				c := Case{Term: t, Desc: one, Nontrivial: true, Tags: []string{"concurrent-load"}}
+				if d.Service == "rt" {
+					c.Tags = append(c.Tags, "routing-race")
+					dist["routing-race"]++
+				}
 				dist["conc"]++
 				dist["type:"+d.Reqs[j].Parts[0]]++
 				cases = append(cases, c)
@@ -2136,6 +2355,10 @@ func main() {
 		if be {
 			c.Tags = append(c.Tags, "bad-error-panic")
 			dist["bad-error-panic"]++
+		}
+		if scanRT(scripts...) {
+			c.Tags = append(c.Tags, "runtime-error-panic")
+			dist["runtime-error-panic"]++
 		}
 		if crashed[i] {
 			c.Tags = append(c.Tags, "crash")
@@ -2199,6 +2422,6 @@ func main() {
 			}
 		}
 	}
-	rule := "one request per case against a freshly served res.Service on a recording connection (scripts of 0-6 actions per handler; product of request type x method case {named,*,none,new with/without New handler,empty} x resource matched/unmatched x handler present/absent x payload {full,partial,empty,{},null,6 undecodable texts} + random shapes + malformed subjects + 200 concurrent requests over 20 resources compared per reply subject); non-trivial = well-formed request whose pattern carries a non-empty script or whose payload does not decode; distinct by the whole case term"
-	Emit(o, *prop, "From GoRes Require Import Run.Run_"+*prop+".", "rcase", rule, cases, dist, map[string]interface{}{"children_crashed": dist["crashed"]}, impl, 250)
+	rule := "one request per case against a freshly served res.Service on a recording connection (scripts of 0-6 actions per handler; product of request type x method case {named,*,none,new with/without New handler,empty} x resource matched/unmatched x handler present/absent x payload {full,partial,empty,{},null,6 undecodable texts} + random shapes + malformed subjects + 2 rounds of 200 concurrent requests over 20 resource patterns, each request on its own resource name with payload values unique to it, handlers yielding before they read, compared per reply subject and per-request handler observations + 60 overlap pairs: request A stopped inside its handler before (or between two) reads of its fields until request B on another worker group was processed completely, half of them under GOMAXPROCS=1); non-trivial = well-formed request whose pattern carries a non-empty script or whose payload does not decode; distinct by the whole case term"
+	Emit(o, *prop, "From GoRes Require Import Run.Run_"+*prop+".", "rcase", rule, cases, dist, map[string]interface{}{"children_crashed": dist["crashed"], "racing_lookups_made": totalLookups}, impl, 250)
 }
